@@ -1547,6 +1547,33 @@ class SymEx:
                 if not silent:
                     x = x.ev(Ev('write', loc=('sub', base, k), value=v, how=how, site=self.site(node), fn=self.fn.qn, old=old, delta=delta))
                 return x
+        if isinstance(t, ast.Attribute) and not self.suppress and not silent:
+            # obj.name = v where the class of obj routes the assignment through a property setter: the setter is what runs (it may keep the value somewhere
+            # else, drop a kept figure, validate) - followed when it is one setter and it neither forks nor refuses
+            setter = None
+            if isinstance(t.value, ast.Name) and t.value.id == 'self' and self.fn.cls is not None:
+                k_ = self.dyn.get(len(self.frames)) or self.fn.cls
+                setter = k_.lookup(t.attr + '@setter')
+            elif not (isinstance(t.value, ast.Name) and t.value.id in ('self', 'cls')):
+                try:
+                    tys_ = [self.M.cls(n_) for n_ in self.M.expr_types(self.fn, t.value, self.tenv())]
+                except Exception:
+                    tys_ = []
+                cands_ = {c_.lookup(t.attr + '@setter') for c_ in tys_ if c_ is not None}
+                cands_.discard(None)
+                if len(cands_) == 1 and all(c_ is None or c_.lookup(t.attr + '@setter') is not None for c_ in tys_):
+                    setter = next(iter(cands_))
+            if setter is not None and not any(fr.qn == setter.qn for fr in self.frames) and self.policy(self.fn, setter, len(self.frames)):
+                r0 = self.ev(t.value, st)
+                if len(r0) == 1 and r0[0][0].exc is None:
+                    ps_ = [p_ for p_ in setter.pos_params if p_ not in ('self',)]
+                    if len(ps_) == 1:
+                        try:
+                            res = self.inline(setter, {ps_[0]: v}, r0[0][1], r0[0][0], node)
+                        except Undecided:
+                            res = []
+                        if len(res) == 1 and res[0][0].exc is None:
+                            return res[0][0]
         (x, loc), = self.loc(t, st)[:1]
         x = x.copy()
         if old is None:
@@ -3740,8 +3767,8 @@ class Valuation:
             # a duration in days
             kws = dict(t[3])
             unit = {'days': Fraction(1), 'hours': Fraction(1, 24), 'minutes': Fraction(1, 1440), 'seconds': Fraction(1, 86400), 'weeks': Fraction(7)}
-            if kws and all(k in unit and v[0] == 'num' for k, v in kws.items()):
-                return sum(unit[k] * v[1] for k, v in kws.items())
+            if kws and all(k in unit and self.value(v) is not None for k, v in kws.items()):
+                return sum(unit[k] * self.value(v) for k, v in kws.items())
         return None
 
     def evalbool(self, t):
